@@ -97,7 +97,7 @@ MUST_NODE = [("id", "... on Bot { model }", "...UserF"), ("... on User { name ag
              ("...NodeF", "...UserF"), ("...NodeF", "... on Bot { model }"), ("...NamedF", "...BotF", "id"), ("...NodeInl2F", "...BotF"),
              ("id", "... on Aged { age }"), ("... on Aged { age }", "... on Bot { model }")]
 MUST_THING = [("... on Bot { model }", "...UserF"), ("... on User { name age }", "...DogF"), ("...ThingUF", "...DogF"), ("... on Named { name }", "...DogF"), ("... on Aged { age }", "...DogF")]
-MUST_USER = [("...RelF",), ("...FavF", "id"), ("...AlphaF",), ("...AlphaF", "name"), ("...UserF", "...NodeF", "id"), ("...UserDeepF", "pet { barks }"), ("...NestF", "...NamedF"), ("related { ... on Bot { model } }", "related { id }")]
+MUST_USER = [("bf: bestFriend { id }", "bf2: bestFriend { name age }"), ("rel1: related { id }", "rel2: related { ... on Bot { model } }", "bestFriend { id }"), ("...RelF",), ("...FavF", "id"), ("...AlphaF",), ("...AlphaF", "name"), ("...UserF", "...NodeF", "id"), ("...UserDeepF", "pet { barks }"), ("...NestF", "...NamedF"), ("related { ... on Bot { model } }", "related { id }")]
 
 
 def with_directive(item: str, d: str) -> str:
@@ -278,6 +278,7 @@ FRAG_OPS = [
     "me { ...ZU ...UA }", "thing { ... on User { ...UE } }", "user { ...UA @include(if: true) }", "user { ...AF }", "me { ...AG }", "users { ...AF ...AG }",
     "node { id ... on Bot { model } ...UE }", "nodesOpt { ... on Dog { barks } ...UB }", "thing { ... on Bot { model } ...UC }", "named { ... on Bot { model } ...UE ...MA }",
     "user { ... on Node { ...NA } }", "me { name ... on Named { ...MA } ... on User { ...ZU } }", "node { ... on Node { ...NA } ... on User { ...UB } }",
+    "user { ...UA ...UF }", "me { ...AF ...UB name }", "users { ...ZU ...AG }",
     "user { ...UN }", "me { id ...UN }", "users { ...UM }", "node { ... on User { ...UN } }",
 ]
 
@@ -318,11 +319,12 @@ def inputs_schema(depth: int) -> str:
             fl.append(f"  w{i}: {tpl.replace('T', base)}")
         lines.append(f"input W{kind} {{\n" + "\n".join(fl) + "\n}")
     return (
-        "type Query { ping(a: WString, b: WInt, c: WFloat, d: WBoolean, e: WID, f: WEnum, g: WIn, h: WScalar, n: Names, r: Rec, d2: Defs): Int }\n"
+        "type Query { ping(a: WString, b: WInt, c: WFloat, d: WBoolean, e: WID, f: WEnum, g: WIn, h: WScalar, n: Names, r: Rec, d2: Defs, bi: Builtins): Int }\n"
         "enum Color { RED GREEN in }\nscalar Blob\n"
         "input Leaf { a: Int!, b: String, c: Color }\n"
         "input Rec { v: Int, next: Rec, many: [Rec!], leaf: Leaf! }\n"
         "input Names { camelCase: Int, in: String, _under: Int, copy: Boolean, json: Int!, model_config: String, Upper: Int, x1y: Int, class: Color, _req: ID!, _lead_list: [Int!]! }\n"
+        "input Builtins { str: String, s2: String, int: Int, i2: Int!, float: Float, f2: [Float], bool: Boolean, b2: Boolean, list: [String], l2: [String!], id: ID, id2: ID }\n"
         "input Defs { i: Int = 3, ni: Int! = 4, s: String = \"x\", b: Boolean = true, f: Float = 1.5, e: Color = GREEN, ne: Color! = RED, l: [Int!] = [1, 2], n: Int = null,\n"
         "  o: Leaf = {a: 1}, req: Int!, lo: [Int] = [1, null] }\n"
         + "\n".join(lines) + "\n"
